@@ -172,7 +172,8 @@ Proof.
     unfold prune. destruct (len (idx s1) <? e_max_records E); cbn [snd].
     + eapply views_same; [| | |exact V1]; reflexivity.
     + destruct (farthest s1) as [[f fd]|]; cbn [snd].
-      * destruct (fd <? e_dist E k); cbn [snd]; auto.
+      * destruct (fd <? e_dist E k); cbn [snd].
+        { eapply views_same; [| | |exact V1]; reflexivity. }
         eapply views_same; [| | |exact (views_remove E s1 f Inj V1)]; reflexivity.
       * eapply views_same; [| | |exact V1]; reflexivity.
 Qed.
@@ -409,7 +410,9 @@ Proof.
     unfold prune. destruct (len (idx s1) <? e_max_records E); cbn [snd].
     + now apply metrics_append.
     + destruct (farthest s1) as [[f fd]|]; cbn [snd].
-      * destruct (fd <? e_dist E k); cbn [snd]; auto. apply metrics_append; auto. now apply metrics_remove.
+      * destruct (fd <? e_dist E k); cbn [snd].
+        { eapply metrics_same; [| | | |exact M1]; reflexivity. }
+        apply metrics_append; auto. now apply metrics_remove.
       * now apply metrics_append.
 Qed.
 
@@ -637,7 +640,8 @@ Proof.
       change (tasks s1) with (tasks s). change (chan s1) with (chan s). change (idx s1) with (idx s).
       change (len [TWrite k v t]) with 1. lia.
     + pose proof (vw_far E s V) as Far. destruct (farthest s) as [[f fd]|]; cbn [snd].
-      * destruct (fd <? e_dist E k); cbn [snd]; [rewrite P1; lia|].
+      * destruct (fd <? e_dist E k); cbn [snd].
+        { change (Phi (set_cache s1 (kremove k (cache s1)))) with (Phi s). lia. }
         destruct Far as (Hf & _ & _).
         assert (Hc : contains s1 f = true) by (apply contains_held; exact Hf).
         pose proof (phi_remove_held E s1 f (vw_keys E s V) Hc) as R.
